@@ -117,6 +117,7 @@ OsslShared *ossl_shared_new(const OsslCfg &cfg, std::string *err) {
         SSL_CTX_set_session_id_context(ctx, sidctx, sizeof sidctx - 1);
         SSL_CTX_set_session_cache_mode(ctx, SSL_SESS_CACHE_SERVER);
         SSL_CTX_set_num_tickets(ctx, (size_t) cfg.num_tickets);
+        if (cfg.max_early > 0) { SSL_CTX_set_max_early_data(ctx, (uint32_t) cfg.max_early); SSL_CTX_set_recv_max_early_data(ctx, (uint32_t) cfg.max_early); }
         SSL_CTX_set_dh_auto(ctx, 1);
         if (cfg.request_client_cert) { SSL_CTX_set_verify(ctx, SSL_VERIFY_PEER | SSL_VERIFY_FAIL_IF_NO_PEER_CERT, nullptr); }
     } else {
@@ -167,6 +168,19 @@ bool OsslEndpoint::create(OsslShared *sh, bool resume) {
 
 void OsslEndpoint::drive() {
     if (!ssl_ || failed) { return; }
+    if (!complete && cfg.server && cfg.max_early > 0 && !early_read_done_) {
+        // a server that accepts 0-RTT has to read it (or learn there is none) before it may continue the handshake
+        for (int guard = 0; guard < 64; guard++) {
+            unsigned char buf[17000]; size_t n = 0; ERR_clear_error();
+            int r = SSL_read_early_data(S, buf, sizeof buf, &n);
+            if (r == SSL_READ_EARLY_DATA_SUCCESS) { early_delivered.push_back(Bytes(buf, buf + n)); fp.add(hash_bytes(buf, n)); continue; }
+            if (r == SSL_READ_EARLY_DATA_FINISH) { early_read_done_ = true; break; }
+            int e = SSL_get_error(S, 0);
+            if (e == SSL_ERROR_WANT_READ || e == SSL_ERROR_WANT_WRITE) { return; }
+            failed = true; unsigned long ec = ERR_peek_last_error(); char eb[256]; ERR_error_string_n(ec, eb, sizeof eb); fail_reason = std::string("early read: ") + eb; fp.add(0xdeaf);
+            return;
+        }
+    }
     if (!complete) {
         ERR_clear_error();
         int r = SSL_do_handshake(S);
